@@ -57,6 +57,10 @@ func (sc *SchemaCache) Schema(src protoreflect.MessageDescriptor) (RootSchema, e
 		placeholder.To, err = schemaPackage.buildObjectSchema(src, msgOptions.GetObject())
 	}
 	if err != nil {
+		// The failed assignment above stored a typed nil pointer in the
+		// interface. Reset it, so that later lookups report the unlinked ref
+		// instead of handing out a nil schema.
+		placeholder.To = nil
 		return nil, err
 	}
 	if placeholder.To.FullName() != placeholder.FullName() {
